@@ -58,8 +58,13 @@ def main() -> int:
     from dsim.checks import load
     from dsim.rng import run_seed
 
+    from dsim import findings
+    from dsim.driver import load_findings
+
     check = load(cfg["check"])
     tier = cfg.get("tier", "quick")
+    open_findings = [f for f in load_findings() if f["property"] == cfg["check"] and f.get("status") == "open"]
+    known_seen: dict = {}
 
     # ---- replay of a scenario file ------------------------------------------ #
     if cfg.get("replay"):
@@ -135,9 +140,16 @@ def main() -> int:
             samples.append(condensed(scn))
         if i < sample_upto or indices is not None:
             emit({"type": "digest", "i": i, "d": d})
+        if res.violations:
+            # a violation that matches an open known finding by mechanism is counted,
+            # not minimised again (its canary replay documents it)
+            fid = findings.match(open_findings, res.violations[0], scn)
+            if fid and all(findings.match(open_findings, v, scn) for v in res.violations):
+                known_seen[fid] = known_seen.get(fid, 0) + 1
+                continue
         if res.violations and violations_reported < cfg.get("max_violations", 3):
             violations_reported += 1
-            v0 = res.violations[0]
+            v0 = next((v for v in res.violations if not findings.match(open_findings, v, scn)), res.violations[0])
             clause = v0["clause"]
             to_replay = getattr(check, "to_replay", None)
             scn_r = to_replay(scn, v0) if to_replay else scn
@@ -212,6 +224,7 @@ def main() -> int:
             "digests": len(digests),
             "nt_digests": sorted(x for x in nt_digests if x),
             "samples": samples,
+            "known_seen": known_seen,
         }
     )
     return 0
